@@ -331,8 +331,20 @@ func (e *env) runWriters(rec *connRec) {
 				if n < 0 {
 					n = 0
 				}
+				// every third writer uses the frame-level call for messages of one frame: it must not
+				// cut into the fragment sequence of another goroutine's WriteMessage either
+				viaFrame := w%3 == 2
+				if viaFrame {
+					n = rng.Intn(c.FrameMax / 2)
+				}
 				msg := buildMsg("C14O", outID(e.salt, idx, w, s), idx, w, s, n)
-				err := rec.wsc.WriteMessage(websocket.BinaryMessage, msg)
+				var err error
+				if viaFrame && len(msg) <= c.FrameMax {
+					err = rec.wsc.WriteFrame(websocket.BinaryMessage, true, true, msg)
+					e.r.Count("messages_written_with_WriteFrame", 1)
+				} else {
+					err = rec.wsc.WriteMessage(websocket.BinaryMessage, msg)
+				}
 				bump()
 				rec.mu.Lock()
 				if err == nil {
